@@ -69,8 +69,28 @@ theorem tr_rename (k : Nat) (b : Body) (hb : b.simple = true) :
   | alt a b iha ihb =>
     intro i o n
     simp only [Body.simple, Bool.and_eq_true] at hb
-    simp only [Body.tr, tr_next, renameT_a2, iha hb.1, ihb hb.2]
+    simp only [Body.tr, tr_next, renameT_a2, iha hb.1.1, ihb hb.1.2]
     rw [Nat.add_right_comm n a.nhid k]
+  | ite c t e ihc iht ihe =>
+    intro i o n
+    simp only [Body.simple, Bool.and_eq_true] at hb
+    simp only [Body.tr, tr_next, renameT_a2, ihc hb.1.1, iht hb.1.2, ihe hb.2]
+    simp [renameT, Nat.add_assoc, Nat.add_comm, Nat.add_left_comm]
+  | ifthen c t ihc iht =>
+    intro i o n
+    simp only [Body.simple, Bool.and_eq_true] at hb
+    simp only [Body.tr, tr_next, renameT_a2, ihc hb.1, iht hb.2]
+    simp [renameT, Nat.add_assoc, Nat.add_comm, Nat.add_left_comm]
+  | block g =>
+    intro i o n
+    simp only [Body.simple, blockGoal, Bool.or_eq_true, beq_iff_eq] at hb
+    rcases hb with ((rfl | rfl) | rfl) | rfl <;> simp [Body.tr, renameT_a2, renameT]
+  | not b ih =>
+    intro i o n
+    simp only [Body.simple] at hb
+    simp only [Body.tr, renameT_a2, Term.a1, renameT, renameA, ih hb]
+    simp [Nat.add_assoc, Nat.add_comm, Nat.add_left_comm]
+  | cut => intro i o n; simp [Body.tr, renameT_a2, renameT]
   | _ => simp [Body.simple] at hb
 
 theorem rename_simple (k : Nat) (b : Body) (hb : b.simple = true) : b.rename k = b := by
@@ -88,7 +108,20 @@ theorem rename_simple (k : Nat) (b : Body) (hb : b.simple = true) : b.rename k =
     simp [Body.rename, iha hb.1, ihb hb.2]
   | alt a b iha ihb =>
     simp only [Body.simple, Bool.and_eq_true] at hb
-    simp [Body.rename, iha hb.1, ihb hb.2]
+    simp [Body.rename, iha hb.1.1, ihb hb.1.2]
+  | ite c t e ihc iht ihe =>
+    simp only [Body.simple, Bool.and_eq_true] at hb
+    simp [Body.rename, ihc hb.1.1, iht hb.1.2, ihe hb.2]
+  | ifthen c t ihc iht =>
+    simp only [Body.simple, Bool.and_eq_true] at hb
+    simp [Body.rename, ihc hb.1, iht hb.2]
+  | block g =>
+    simp only [Body.simple, blockGoal, Bool.or_eq_true, beq_iff_eq] at hb
+    rcases hb with ((rfl | rfl) | rfl) | rfl <;> simp [Body.rename, renameT]
+  | not b ih =>
+    simp only [Body.simple] at hb
+    simp [Body.rename, ih hb]
+  | cut => rfl
   | _ => simp [Body.simple] at hb
 
 /-- the clause of a simple rule -/
@@ -232,8 +265,7 @@ theorem rules_sim (cfg : Cfg) (huf : 2 ≤ cfg.uf) (gr : Grammar) (n : Nat) (L :
       | error e' => simp [hx, hy, Rel] at hL
       | ok od =>
         simp only [hx, hy, Rel] at hL
-        obtain ⟨c1, c2, hall⟩ := hL
-        simp only [c1, c2, Bool.false_eq_true, if_false]
+        obtain ⟨c1, hall⟩ := hL
         -- answers of this rule, seen from the caller
         have hconv : All2 (AnsRel st s 0 0 dst) o.answers od.answers := by
           refine hall.imp (fun st' a h => ?_)
@@ -265,18 +297,25 @@ theorem rules_sim (cfg : Cfg) (huf : 2 ≤ cfg.uf) (gr : Grammar) (n : Nat) (L :
                 rcases hp with rfl | rfl
                 · exact .inl rfl
                 · exact .inr (.inr ⟨Nat.le_refl _, by simp; omega⟩)
-        cases hx2 : tryClauses cfg.uf (solve cfg.uf (programOf gr) n) (.app f (.cons x (.cons (.var s) .nil))) st
-            (rs.map Rule.clause) with
-        | error e =>
-          cases hy2 : tryRules cfg.uf (den cfg gr n) [] dst (Term.list l Term.nilT) rs with
-          | error e' => simp [RelL]
-          | ok more' => simp [hx2, hy2, RelL] at ih'
-        | ok more =>
-          cases hy2 : tryRules cfg.uf (den cfg gr n) [] dst (Term.list l Term.nilT) rs with
-          | error e' => simp [hx2, hy2, RelL] at ih'
-          | ok more' =>
-            simp only [hx2, hy2, RelL] at ih' ⊢
-            exact hconv.append ih'
+        by_cases hc : o.cut = true
+        · have hc' : od.cut = true := c1 ▸ hc
+          simp only [hc, hc', if_true, RelL]
+          exact hconv
+        · have hc0 : o.cut = false := by simpa using hc
+          have hc' : od.cut = false := c1 ▸ hc0
+          simp only [hc0, hc', Bool.false_eq_true, if_false]
+          cases hx2 : tryClauses cfg.uf (solve cfg.uf (programOf gr) n) (.app f (.cons x (.cons (.var s) .nil))) st
+              (rs.map Rule.clause) with
+          | error e =>
+            cases hy2 : tryRules cfg.uf (den cfg gr n) [] dst (Term.list l Term.nilT) rs with
+            | error e' => simp [RelL]
+            | ok more' => simp [hx2, hy2, RelL] at ih'
+          | ok more =>
+            cases hy2 : tryRules cfg.uf (den cfg gr n) [] dst (Term.list l Term.nilT) rs with
+            | error e' => simp [hx2, hy2, RelL] at ih'
+            | ok more' =>
+              simp only [hx2, hy2, RelL] at ih' ⊢
+              exact hconv.append ih'
 
 /-! ### the induction on the fuel -/
 
@@ -333,7 +372,7 @@ theorem level_sim (cfg : Cfg) (hcfg : cfg.engine = false) (huf : 2 ≤ cfg.uf) (
         | error e' => simp only [hx, hy, RelL] at hr
         | ok ds =>
           simp only [hx, hy, RelL] at hr
-          exact ⟨rfl, rfl, hr⟩
+          exact ⟨rfl, hr⟩
 
 /-! ### definitions used to state the property theorems (Properties/C17.lean) -/
 
@@ -363,9 +402,18 @@ structure SimpleSetting (cfg : Cfg) (gr : Grammar) (b : Body) (l : List Term) : 
   body : b.simple = true ∧ b.need ≤ cfg.uf
   input : ∀ t ∈ l, groundT t = true
 
-/-- a recursive grammar in the fragment:  a --> [x], a ; []. -/
-def exampleRule : Rule :=
-  { name := "a", args := [], pushback := none, nv := 0,
-    body := Body.alt (Body.seq (Body.terminals [Term.atom "x"]) (Body.nt "a" [])) Body.eps }
+/-- a grammar in the fragment (the D16 witness plus recursion, negation and a condition):
+      a --> [x], !, [y].     a --> [x], [z].     a --> \\+ [z], ( b -> [] ; [y] ).
+      b --> [x], b ; []. -/
+def exampleGrammar : Grammar :=
+  let x := Term.atom "x"; let y := Term.atom "y"; let z := Term.atom "z"
+  [ { name := "a", args := [], pushback := none, nv := 0,
+      body := .seq (.terminals [x]) (.seq .cut (.terminals [y])) },
+    { name := "a", args := [], pushback := none, nv := 0,
+      body := .seq (.terminals [x]) (.terminals [z]) },
+    { name := "a", args := [], pushback := none, nv := 0,
+      body := .seq (.not (.terminals [z])) (.ite (.nt "b" []) .eps (.terminals [y])) },
+    { name := "b", args := [], pushback := none, nv := 0,
+      body := .alt (.seq (.terminals [x]) (.nt "b" [])) .eps } ]
 
 end PrologVerif.Grammar
